@@ -39,6 +39,7 @@ type netReq struct {
 	delivered bool
 	resp      *originResp
 	cancelled bool
+	deliveredAt time.Duration
 }
 
 type netReply struct {
@@ -209,6 +210,7 @@ func (n *cliNet) deliver(nr *netReq) {
 		return
 	}
 	nr.delivered = true
+	nr.deliveredAt = n.r.Now()
 	f := nr.fate
 	resp := nr.resp
 	switch f.fault {
